@@ -23,7 +23,7 @@ import (
 	"verif/internal/model"
 )
 
-const rule = "cases: signed structures built by the independent model and signed with stdlib crypto - RouterInfo (Ed25519, DSA, P-256, P-384 identities), LeaseSet (DSA incl. NULL certificate, P-256, P-384, Ed25519, RedDSA), LeaseSet2 / MetaLeaseSet (library-documented layout) / EncryptedLeaseSet with and without offline block (identity types as above, transient types 0,1,2,7,11), standalone OfflineSignature - (one base in three is instead built and signed by the library's own constructors, so that a verifier that is lenient in the same way as the signer is exposed by the edits) x adversarial derivations: genuine; offline block with a random signature; offline block signed by another key of the identity's type (transplanted from another identity); outer signature random or made by an attacker key; field-level tampering of an options mapping after signing (pair with empty key or empty value added, pair appended / dropped / duplicated, order reversed, value changed - in RouterInfo options, address options, LeaseSet2 options, MetaLeaseSet options and entry properties); 1-3 byte-level edits (bit flips, byte sets, 2-byte field +-k, insertions, deletions, truncation, appended data) aimed at header, length, count, flag and key fields or anywhere. Oracle: if the library parses the derived bytes and reports success, then (i) the strict model decodes exactly the consumed bytes, (ii) the outer signature verifies (crypto/ed25519, crypto/ecdsa, crypto/dsa) over prefix || consumed[:-sig] under the identity key, or under the transient key if flag bit 0 is set AND the offline block's signature verifies over expires||type||key under the identity key (blinded key for EncryptedLeaseSet). After a RouterInfo has verified, it is changed through the exported API (AddAddress, or the cost of an address through the pointer RouterAddresses() returns) and verified again: success must then hold over the value's new serialisation. Non-trivial: the derived input is not genuine and still parses; distinct by input bytes."
+const rule = "cases: signed structures built by the independent model and signed with stdlib crypto - RouterInfo (Ed25519, DSA, P-256, P-384 identities), LeaseSet (DSA incl. NULL certificate, P-256, P-384, Ed25519, RedDSA), LeaseSet2 / MetaLeaseSet (library-documented layout) / EncryptedLeaseSet with and without offline block (identity types as above, transient types 0,1,2,7,11), standalone OfflineSignature - (one base in three is instead built and signed by the library's own constructors, so that a verifier that is lenient in the same way as the signer is exposed by the edits) x adversarial derivations: genuine; offline block with a random signature; offline block signed by another key of the identity's type (transplanted from another identity); outer signature random or made by an attacker key, or made by the prescribed key under another store-type prefix (0, 1, 2, 3, 5, 7, 255; for RouterInfo and LeaseSet: with a prefix prepended); field-level tampering of an options mapping after signing (pair with empty key or empty value added, pair appended / dropped / duplicated, order reversed, value changed - in RouterInfo options, address options, LeaseSet2 options, MetaLeaseSet options and entry properties); 1-3 byte-level edits (bit flips, byte sets, 2-byte field +-k, insertions, deletions, truncation, appended data) aimed at header, length, count, flag and key fields or anywhere. Oracle: if the library parses the derived bytes and reports success, then (i) the strict model decodes exactly the consumed bytes, (ii) the outer signature verifies (crypto/ed25519, crypto/ecdsa, crypto/dsa) over prefix || consumed[:-sig] under the identity key, or under the transient key if flag bit 0 is set AND the offline block's signature verifies over expires||type||key under the identity key (blinded key for EncryptedLeaseSet). After a RouterInfo has verified, it is changed through the exported API (AddAddress, or the cost of an address through the pointer RouterAddresses() returns) and verified again: success must then hold over the value's new serialisation. Non-trivial: the derived input is not genuine and still parses; distinct by input bytes."
 
 func TestMain(m *testing.M) { ev.Main(m, "C05", rule) }
 
@@ -39,6 +39,9 @@ type Case struct {
 	// prescribes: the LeaseSet's revocation key; the destination key although a transient key is
 	// attached (LeaseSet2 / MetaLeaseSet / EncryptedLeaseSet); another key for a RouterInfo
 	SigMode int `json:"sig_mode"`
+	// SigMode 4: made by the right key over the right content but under another store-type
+	// prefix (Prefix; for the structures signed without a prefix: with one prepended)
+	Prefix int `json:"prefix,omitempty"`
 	// LibSigned: the base is built and signed by the library's own constructor
 	// (then edited); catches a verifier that is lenient in the same way the signer is
 	LibSigned bool `json:"lib_signed,omitempty"`
@@ -261,6 +264,24 @@ func libBase(c Case) ([]byte, bool) {
 	return b, true
 }
 
+// wrongPrefix re-signs with the prescribed key over the content under another
+// store-type prefix. prefixed: the structure's signed part starts with a prefix byte.
+func wrongPrefix(k *model.SignKey, signed []byte, prefixed bool, p int) ([]byte, bool) {
+	if k == nil {
+		return nil, false
+	}
+	msg := append([]byte{}, signed...)
+	if prefixed {
+		if len(msg) == 0 || msg[0] == byte(p) {
+			return nil, false
+		}
+		msg[0] = byte(p)
+	} else {
+		msg = append([]byte{byte(p)}, msg...)
+	}
+	return k.Sign(msg), true
+}
+
 func attackerSig(t int, seed uint64, msg []byte, mode int) []byte {
 	if mode == 2 {
 		if k := model.NewSignKey(t, seed^0xa77ac); k != nil {
@@ -276,8 +297,11 @@ func check(c Case, r *ev.Rec) error {
 	var in []byte
 	switch c.Kind {
 	case "ri":
-		m, _ := c.RI.Build()
-		if c.SigMode != 0 {
+		m, rk := c.RI.Build()
+		if sig, ok := wrongPrefix(rk, m.SignedPart(), false, c.Prefix); c.SigMode == 4 && ok {
+			m.Sig = sig
+			r.Class("ri:signed-under-wrong-prefix")
+		} else if c.SigMode != 0 {
 			m.Sig = attackerSig(m.Ident.SigType, c.RI.Ident.KeySeed, m.SignedPart(), c.SigMode)
 		}
 		base, tampered := tamper(c, orLib(c, r, m.Encode()))
@@ -325,8 +349,11 @@ func check(c Case, r *ev.Rec) error {
 		}
 		return nil
 	case "ls":
-		m, _ := c.LS.Build()
-		if c.SigMode == 3 {
+		m, lk := c.LS.Build()
+		if sig, ok := wrongPrefix(lk, m.SignedPart(), false, c.Prefix); c.SigMode == 4 && ok {
+			m.Sig = sig
+			r.Class("ls:signed-under-wrong-prefix")
+		} else if c.SigMode == 3 {
 			if rk := model.NewSignKey(m.Dest.SigType, c.LS.Seed^0x5e); rk != nil { // the key in the signing_key field
 				m.Sig = rk.Sign(m.SignedPart())
 				r.Class("ls:signed-by-revocation-key")
@@ -350,8 +377,11 @@ func check(c Case, r *ev.Rec) error {
 		auth := derr == nil && model.Verify(dm.Dest.SigType, dm.Dest.Sig, in[:n-len(dm.Sig)], dm.Sig)
 		return verdict(c, r, "LeaseSet.Verify", success, auth, genuine, true, in, derr)
 	case "ls2":
-		m, dk, _ := c.LS2.Build()
-		if c.SigMode == 3 && m.Header.Offline != nil && dk != nil {
+		m, dk, outerKey := c.LS2.Build()
+		if sig, ok := wrongPrefix(outerKey, m.SignedPart(), true, c.Prefix); c.SigMode == 4 && ok {
+			m.Sig = sig
+			r.Class(fmt.Sprintf("ls2:signed-under-wrong-prefix-%d,flags=%d", c.Prefix, m.Flags&6))
+		} else if c.SigMode == 3 && m.Header.Offline != nil && dk != nil {
 			m.Sig = dk.Sign(m.SignedPart())
 			r.Class("ls2:signed-by-destination-key-despite-transient")
 		} else if c.SigMode != 0 {
@@ -378,8 +408,11 @@ func check(c Case, r *ev.Rec) error {
 		}
 		return verdict(c, r, "LeaseSet2.Verify", success, auth, genuine, true, in, derr)
 	case "meta":
-		m, dk, _ := c.Meta.Build()
-		if c.SigMode == 3 && m.Header.Offline != nil && dk != nil {
+		m, dk, outerKey := c.Meta.Build()
+		if sig, ok := wrongPrefix(outerKey, m.SignedPart(), true, c.Prefix); c.SigMode == 4 && ok {
+			m.Sig = sig
+			r.Class("meta:signed-under-wrong-prefix")
+		} else if c.SigMode == 3 && m.Header.Offline != nil && dk != nil {
 			m.Sig = dk.Sign(m.SignedPart())
 			r.Class("meta:signed-by-destination-key-despite-transient")
 		} else if c.SigMode != 0 {
@@ -406,8 +439,11 @@ func check(c Case, r *ev.Rec) error {
 		}
 		return verdict(c, r, "MetaLeaseSet.Verify", success, auth, genuine, true, in, derr)
 	case "els":
-		m, dk, _ := c.ELS.Build()
-		if c.SigMode == 3 && m.Offline != nil && dk != nil {
+		m, dk, outerKey := c.ELS.Build()
+		if sig, ok := wrongPrefix(outerKey, m.SignedPart(), true, c.Prefix); c.SigMode == 4 && ok {
+			m.Sig = sig
+			r.Class("els:signed-under-wrong-prefix")
+		} else if c.SigMode == 3 && m.Offline != nil && dk != nil {
 			m.Sig = dk.Sign(m.SignedPart())
 			r.Class("els:signed-by-blinded-key-despite-transient")
 		} else if c.SigMode != 0 {
@@ -617,7 +653,10 @@ func genCase(t *rapid.T) Case {
 		c.LS2 = &s
 		c.OffKey = rapid.SampledFrom([]int{0, 0, 1, 2}).Draw(t, "offkey")
 	}
-	c.SigMode = rapid.SampledFrom([]int{0, 0, 0, 1, 2, 3}).Draw(t, "sigmode")
+	c.SigMode = rapid.SampledFrom([]int{0, 0, 0, 1, 2, 3, 4}).Draw(t, "sigmode")
+	if c.SigMode == 4 {
+		c.Prefix = rapid.SampledFrom([]int{0, 1, 3, 5, 7, 2, 255}).Draw(t, "prefix")
+	}
 	c.LibSigned = rapid.IntRange(0, 2).Draw(t, "libsigned") == 0
 	if (c.Kind == "ri" || c.Kind == "ls2" || c.Kind == "meta") && rapid.IntRange(0, 3).Draw(t, "tamper") == 0 {
 		c.Tamper = [2]int{rapid.IntRange(0, 7).Draw(t, "twhich"), rapid.IntRange(1, 8).Draw(t, "tkind")}
